@@ -99,6 +99,7 @@ def execute_once(engine, text, op_name, variables, plan, choice, scheduler="rand
                  point_mode="gate", rid=0, root_value=None, override=None, context=None, step_cap=200_000, type_override=None, deny=False):
     loop = SimLoop(choice, scheduler, busy_pct, point_mode, step_cap)
     rt = Runtime(rid, loop, plan)
+    rt.engine_cfg = getattr(engine, "_simv_cfg", None) or {}
     rt.override = override
     rt.type_override = type_override
     rt.deny = deny
@@ -182,6 +183,7 @@ def run_batch(engine, reqs, choice, scheduler="random", busy_pct=30, point_mode=
     out = Out()
     for r in reqs:
         r.rt = Runtime(r.rid, loop, r.plan)
+        r.rt.engine_cfg = getattr(engine, "_simv_cfg", None) or {}
         r.rt.shared = shared
         r.rt.scramble_args = bool(r.plan is not None and getattr(r.plan, "no_variables", False))
         r.ctx = ReqCtx(r.rt)
